@@ -90,6 +90,33 @@ func vPagedQuery(c *Conn) *Query {
 	return q
 }
 
+// executor=1: every page (the first one included) is requested through the session's query executor, as
+// Session.Query(...).Iter() does, with a retry policy that answers Ignore ("stop retrying, hand the result
+// to the caller") for the failed fetch: the failure must still be the iteration's error.
+type vIgnorePolicy struct{}
+
+func (vIgnorePolicy) Attempt(q RetryableQuery) bool        { return true }
+func (vIgnorePolicy) GetRetryType(err error) RetryType { return Ignore }
+
+var vPagingConn *Conn
+
+func vstubPoolPickPagingConn(pool *hostConnPool) *Conn { return vPagingConn }
+
+func vFirstPage(c *Conn, q *Query) *Iter {
+	if vBound("executor") != 1 {
+		return c.executeQuery(q.context, q)
+	}
+	h := &HostInfo{hostId: "a", connectAddress: vAddrs[0], state: NodeUp}
+	c.host = &HostInfo{hostId: "00000000-0000-0000-0000-000000000001", connectAddress: vAddrs[0], state: NodeUp}
+	vPagingConn = c
+	q.conn = nil
+	q.rt = vIgnorePolicy{}
+	q.spec = &NonSpeculativeExecution{}
+	q.metrics = &queryMetrics{m: map[string]*hostMetrics{}}
+	c.session.executor = &queryExecutor{pool: &policyConnPool{}, policy: &vOneHostPolicy{h: h}}
+	return c.session.executeQuery(q)
+}
+
 func vCheckPageRequests(q *Query) {
 	same := true
 	for i, r := range vPageReqs {
@@ -137,7 +164,7 @@ func vh_paging() {
 		vPages = append(vPages, p)
 	}
 	q.prefetch = []float64{0, 0.25, 1}[vBound("prefetch")]
-	iter := c.executeQuery(q.context, q)
+	iter := vFirstPage(c, q)
 	var got []int32
 	total := len(all)
 	consumer := vBound("consumer") // 0 Scan, 1 Scanner, 2 MapScan, 3 SliceMap
@@ -230,7 +257,7 @@ func vh_manual_paging() {
 	q := vPagedQuery(c)
 	vPages = []vPage{p, {}}
 	q.PageState(st)
-	iter := c.executeQuery(q.context, q)
+	iter := vFirstPage(c, q)
 	var x, y int32
 	vAssert(iter.Scan(&x) && !iter.Scan(&y), "C15/manual/exactly-one-page-of-rows")
 	vAssert(len(vPageReqs) == 1 && refBytesEq(vPageReqs[0].params.pagingState, st), "C15/manual/one-request-with-the-callers-state")
